@@ -57,19 +57,29 @@ def showDump (s : Store) : String :=
   "dump " ++ ";".intercalate (sortStrings (s.map fun (k, v) => String.ofList k ++ "=" ++ hex v))
 
 structure St where
-  cfg : Cfg := ⟨false, false, false⟩
+  cfg : Cfg := { writeThrough := false, noPrefix := false, idWrap := false }
   s : Store := []
+
+def showProvided (calls : List (List Bytes)) : String :=
+  " prov=" ++ "|".intercalate (calls.map fun c => ",".intercalate (c.map hex))
 
 def doOp (st : St) (op : Option Op) : St × String :=
   match op with
   | none => (st, "bad-op")
-  | some op => let r := step st.cfg st.s op; ({ st with s := r.1 }, showOut r.2)
+  | some op =>
+    let r := step st.cfg st.s op
+    let pv := match op with
+      | .put _ | .putMany _ => if st.cfg.provider then showProvided (provided st.cfg st.s op) else ""
+      | _ => ""
+    ({ st with s := r.1 }, showOut r.2 ++ pv)
 
 def stepLine (st : St) (line : String) : St × String :=
   match (line.trimAscii.toString.splitOn " ").filter (· ≠ "") with
   | ["case", n] => ({}, s!"case {n}")
   | ["end"] => ({}, "end")
-  | ["cfg", a, b, c] => ({ cfg := ⟨a == "1", b == "1", c == "1"⟩, s := [] }, "ok")
+  | ["cfg", a, b, c] => ({ cfg := { writeThrough := a == "1", noPrefix := b == "1", idWrap := c == "1" }, s := [] }, "ok")
+  | ["cfg", a, b, c, p] =>
+    ({ cfg := { writeThrough := a == "1", noPrefix := b == "1", idWrap := c == "1", provider := p == "1" }, s := [] }, "ok")
   | ["put", c, d] => doOp st (do pure (.put { cid := (← parseCid c), data := (← unhex d) }))
   | "putmany" :: r => doOp st (do pure (.putMany (← parseBlks r)))
   | ["del", c] => doOp st (do pure (.delete (← parseCid c)))
@@ -78,6 +88,13 @@ def stepLine (st : St) (line : String) : St × String :=
   | ["size", c] => doOp st (do pure (.getSize (← parseCid c)))
   | ["view", c] => doOp st (do pure (.view (← parseCid c)))
   | ["keys"] => doOp st (some .allKeys)
+  | ["keyserr"] => doOp st (some .allKeys)          -- AllKeysChanWithErr drained completely
+  | ["keyscancel", _] => (st, "ok")                 -- judged by the monitor (timing-dependent cut)
+  | ["gc"] => (st, "ok")                            -- GCLocker exercise, judged by the monitor
+  | ["rawput", k, d] =>
+    match unhex d with
+    | some d => ({ st with s := AMap.insert st.s k.toList d }, "ok")
+    | none => (st, "bad-op")
   | ["dump"] => (st, showDump st.s)
   | _ => (st, "bad-op")
 
